@@ -57,7 +57,8 @@ theorem consBag_ineq (vars : List (Label × VKind)) (lam : Rat) (i : Nat) (c : C
     | .equality ubc => consBag vars lam i c = .ok (eqTermsCy .binary (castTerms T) lam (((-ubc : Int)) : Rat))
     | .slack ubc lbc S =>
       ∃ touch, consBag vars lam i c = .ok (touch ++ eqTermsCy .binary (castTerms (T ++ slackTerms (slackLabels s!"c{i}" S) S)) lam (((-ubc : Int)) : Rat))
-        ∧ ∀ z, evalBag z touch = 0 := by
+        ∧ (∀ z, evalBag z touch = 0)
+        ∧ (∀ t ∈ touch, ∃ l ∈ slackLabels s!"c{i}" S, t = PTerm.lin l 0) := by
   intro lb ub
   unfold consBag
   have hq' : (!c.lhs.quad.isEmpty) = false := by rw [hq]; rfl
@@ -75,7 +76,13 @@ theorem consBag_ineq (vars : List (Label × VKind)) (lam : Rat) (i : Nat) (c : C
     | equality ubc => simp [Rat.intCast_neg]
     | slack ubc lbc S =>
       refine ⟨(bqmSlack s!"c{i}" ubc lbc S false).map (fun (p : Label × Int) => PTerm.lin p.1 0), ?_,
-        fun z => touch_eval z _ (fun p : Label × Int => p.1)⟩
+        fun z => touch_eval z _ (fun p : Label × Int => p.1), ?_⟩
+      rotate_left
+      · intro t ht
+        simp only [List.mem_map] at ht
+        obtain ⟨p, hp', rfl⟩ := ht
+        rw [bqmSlack_eq] at hp'
+        exact ⟨p.1, (List.of_mem_zip hp').1, rfl⟩
       have e1 : (bqmSlack s!"c{i}" ubc lbc S false).map (fun (p : Label × Int) => (p.1, ((p.2 : Int) : Rat)))
           = castTerms (slackTerms (slackLabels s!"c{i}" S) S) := by rw [bqmSlack_eq]; rfl
       rw [castTerms_append, ← e1, Rat.intCast_neg]
@@ -89,7 +96,13 @@ theorem consBag_ineq (vars : List (Label × VKind)) (lam : Rat) (i : Nat) (c : C
     | equality ubc => simp [Rat.intCast_neg]
     | slack ubc lbc S =>
       refine ⟨(bqmSlack s!"c{i}" ubc lbc S false).map (fun (p : Label × Int) => PTerm.lin p.1 0), ?_,
-        fun z => touch_eval z _ (fun p : Label × Int => p.1)⟩
+        fun z => touch_eval z _ (fun p : Label × Int => p.1), ?_⟩
+      rotate_left
+      · intro t ht
+        simp only [List.mem_map] at ht
+        obtain ⟨p, hp', rfl⟩ := ht
+        rw [bqmSlack_eq] at hp'
+        exact ⟨p.1, (List.of_mem_zip hp').1, rfl⟩
       have e1 : (bqmSlack s!"c{i}" ubc lbc S false).map (fun (p : Label × Int) => (p.1, ((p.2 : Int) : Rat)))
           = castTerms (slackTerms (slackLabels s!"c{i}" S) S) := by rw [bqmSlack_eq]; rfl
       rw [castTerms_append, ← e1, Rat.intCast_neg]
@@ -130,7 +143,7 @@ theorem cqm_ineq_slack (vars : List (Label × VKind)) (lam : Rat) (hlam : 0 ≤ 
   simp only at hshape
   rw [hplan] at hshape
   simp only at hshape
-  obtain ⟨touch, hbag, htouch⟩ := hshape
+  obtain ⟨touch, hbag, htouch, _⟩ := hshape
   have hev : ∀ z' : Label → Int, evalBag (toRat z') (touch ++ eqTermsCy .binary (castTerms (T ++ slackTerms (slackLabels s!"c{i}" S) S)) lam (((-ubc : Int)) : Rat))
       = slackPenalty T (slackLabels s!"c{i}" S) S ubc lam z' := by
     intro z'; rw [evalBag_append, htouch]; unfold slackPenalty; grind
